@@ -27,12 +27,15 @@ for sp in specs:
             open(p, 'w').write(s)
         if not ok:
             results.append((sp['name'], sp['property'], 'INVALID (edit does not apply)'))
+            print('MUTANT %-40s %-4s %s' % results[-1], flush=True)
             continue
         if subprocess.run(['go', 'build', './...'], cwd=d, env=env, capture_output=True).returncode != 0:
             results.append((sp['name'], sp['property'], 'INVALID (does not build)'))
+            print('MUTANT %-40s %-4s %s' % results[-1], flush=True)
             continue
         if subprocess.run(SUITE, cwd=d, env=env, capture_output=True).returncode != 0:
             results.append((sp['name'], sp['property'], 'INVALID (existing suite fails)'))
+            print('MUTANT %-40s %-4s %s' % results[-1], flush=True)
             continue
         t0 = time.time()
         cmd = [os.path.join(V, 'bin', 'p9sym'), 'run', '-property', sp['property'], '-tier', sp.get('tier', 'quick'), '-no-evidence']
